@@ -375,6 +375,8 @@ OPEN_C03_FINDINGS = [w('local a = { c -- k\n = bar() }\n', oracle="comments"),  
     w('local t = { a -- c\n, -- d\n b }\n', oracle="comments"), w('foo(a -- c\n, -- d\n b)\n', oracle="comments"), w('return a -- c\n, -- d\n b\n', oracle="comments")]   # D28, one per formatter
 LIST_WITNESSES = [w('local aaaa, bbbb, cccc = ffff(1111, 2222), gggg(3333), hhhh -- c\naaaa.b, cccc[1] = xxxx + yyyy * zzzz, function() return 1 end\nfoo(aaaa, bbbb, { cccc = 1 }, function() return dddd, eeee end)\nfunction m.a.b:c(pppp, qqqq, ...) return pppp, qqqq, ... end\n', oracle="tree", sweep=(10, 120)),
                   w('for kkkk, vvvv in pairs(tttt), nil, nil do end\nlocal t = { aaaa = 1, [2] = bbbb, cccc, dddd = { eeee, ffff }; gggg }\nlocal u = {\n  1, 2;\n  3 }\n', oracle="tree", sweep=(10, 120))]
+# seed C01-8: a parenthesised prefix (table, function, string, call) at every width: its parentheses stay
+PREFIX_WITNESSES = [w('local message = ({ pcall(ffffffff, aaaaaaaa, bbbbbbbb) })[2]\nlocal s = ("xxxxxxxx"):rep(3333):upper()\nlocal v = (function() return tttt end)()\nlocal c = (gggg())[1111]\n(hhhh or iiii)(jjjj)\n', oracle="tree", sweep=(4, 120))]
 # seed C02-8: Luau type annotations of a multi-name local, some names annotated and some not, at every width
 LOCAL_TYPES_WITNESSES = [w('local okay, response: Response = pcall(requestrequestrequest, argumentargument, argumentargument)\nlocal first: boolean, second, third: string = computecomputecompute(aaaaaaaa), bbbbbbbbbbbbbbbb, cccccccccccccccc\nlocal a, b: number\n', oracle="tree", syntax="luau", sweep=(10, 120))]
 RETURN_WITNESSES = [w('local function f()\n  return -- c\n    aaaa(1111), bbbb + cccc * dddd, eeee\nend\nlocal function g() return function() end, { 1, 2 } end\nlocal function h()\n  return aaaa and bbbb or cccc, -- d\n    dddd\nend\nreturn\n', oracle="tree", sweep=(10, 120)),
@@ -413,7 +415,7 @@ WITNESSES = {
     "C18.": [cli("json_diff_reconstructs"), cli("unified_diff_reconstructs"), cli("check_never_writes")],
     "C01.output_is_printed_ast": LIB_WITNESSES, "C01.verified": LIB_WITNESSES, "C12.sort_iff_enabled": LIB_WITNESSES, "C02.whole_ast": LIB_WITNESSES,
     "C08.": BLOCK_WITNESSES, "C09.": BLOCK_WITNESSES + RANGE_BLANK_WITNESSES, "C01.semicolon": BLOCK_WITNESSES[-2:], "C01.next_starts": BLOCK_WITNESSES[-2:],
-    "C05.": EXPR_WITNESSES + BINOP_COMMENT_WITNESSES, "C01.single_line.line_safe": LINE_SAFE_WITNESSES + BINOP_COMMENT_WITNESSES + UNOP_COMMENT_WITNESSES,
+    "C05.prefix_keeps_parens": PREFIX_WITNESSES, "C05.": EXPR_WITNESSES + BINOP_COMMENT_WITNESSES, "C01.single_line.line_safe": LINE_SAFE_WITNESSES + BINOP_COMMENT_WITNESSES + UNOP_COMMENT_WITNESSES,
     "C05.hanging.line_safe": LINE_SAFE_WITNESSES + BINOP_COMMENT_WITNESSES + UNOP_COMMENT_WITNESSES, "C05.hang_binop.line_safe": LINE_SAFE_WITNESSES, "C01.parenthesise": LINE_SAFE_WITNESSES[:1],
     "C01.unary_operand": UNOP_COMMENT_WITNESSES, "C01.format_expression.line_safe": LINE_SAFE_WITNESSES + BINOP_COMMENT_WITNESSES,
     "C01.bracket_string_visible_hanging": BRACKET_WITNESSES + BINOP_COMMENT_WITNESSES,
